@@ -13,7 +13,11 @@
 (* `dl` is the sequence of published dead letters.                                   *)
 EXTENDS Integers, Sequences, FiniteSets, TLC
 
-CONSTANTS Cap, MaxId, Defects
+CONSTANTS Cap, MaxId, Defects,
+          Kinds,       \* kinds of local delivery used: "S" PID.Tell from an actor, "N" actor.Tell (no sender), "Q" ctx.Request from
+                       \* the actor Q (the message travels in an AsyncRequest envelope), "A" actor.Ask (no sender)
+          BatchSizes   \* sizes of failed outbound batches; member i comes from sender "R" (i odd) or "R2" (i even): the send
+                       \* coalescer batches per destination, not per sender
 
 VARIABLES life,      \* "running" | "stopped"
           mb,        \* messages waiting in T's mailbox: Seq([id, snd, unh])
@@ -49,13 +53,16 @@ Deliver(m) ==
   ELSE IF Len(mb) < Cap
        THEN mb' = Append(mb, m) /\ UNCHANGED cur /\ NoDead
        ELSE /\ UNCHANGED <<mb, cur>>
-            /\ IF "SwallowFull" \in Defects THEN NoDead ELSE Dead(<<[id |-> m.id, snd |-> m.snd, rcv |-> "T"]>>)
+            /\ IF "SwallowFull" \in Defects THEN NoDead ELSE Dead(<<[id |-> m.id, snd |-> m.snd, rcv |-> "T", pos |-> 0]>>)
+
+\* the sender a dead letter must carry for a delivery of kind k
+SndOf(k) == IF k = "A" THEN "N" ELSE k
 
 Tell(snd, unh) ==
   /\ nid < MaxId /\ nid' = nid + 1
   /\ IF life = "running"
      THEN /\ accepted' = accepted \cup {nid + 1}
-          /\ Deliver([id |-> nid + 1, snd |-> snd, unh |-> unh])
+          /\ Deliver([id |-> nid + 1, snd |-> SndOf(snd), unh |-> unh])
      ELSE UNCHANGED <<accepted, mb, cur, dl, count, perT>>            \* ErrDead to the caller
   /\ last' = [op |-> "Tell", id |-> nid + 1, n |-> 1, snd |-> snd, rcv |-> "T", unh |-> unh, ok |-> life = "running"]
   /\ UNCHANGED <<life, handled>>
@@ -65,14 +72,14 @@ RemoteTell(rcv, unh) ==
   /\ accepted' = accepted \cup {nid + 1}
   /\ IF rcv = "T" /\ life = "running"
      THEN Deliver([id |-> nid + 1, snd |-> "R", unh |-> unh])
-     ELSE /\ Dead(<<[id |-> nid + 1, snd |-> "R", rcv |-> rcv]>>) /\ UNCHANGED <<mb, cur>>
+     ELSE /\ Dead(<<[id |-> nid + 1, snd |-> "R", rcv |-> rcv, pos |-> 0]>>) /\ UNCHANGED <<mb, cur>>
   /\ last' = [op |-> "RemoteTell", id |-> nid + 1, n |-> 1, snd |-> "R", rcv |-> rcv, unh |-> unh, ok |-> TRUE]
   /\ UNCHANGED <<life, handled>>
 
 Batch(n) ==
   /\ nid + n <= MaxId /\ nid' = nid + n
   /\ accepted' = accepted \cup (nid + 1)..(nid + n)
-  /\ Dead([i \in 1..n |-> [id |-> nid + i, snd |-> "R", rcv |-> "X"]])
+  /\ Dead([i \in 1..n |-> [id |-> nid + i, snd |-> (IF "BatchFirstSender" \in Defects \/ i % 2 = 1 THEN "R" ELSE "R2"), rcv |-> "X", pos |-> i]])
   /\ last' = [op |-> "Batch", id |-> nid + 1, n |-> n, snd |-> "R", rcv |-> "X", unh |-> FALSE, ok |-> TRUE]
   /\ UNCHANGED <<life, mb, cur, handled>>
 
@@ -81,8 +88,8 @@ Finish ==
   /\ cur.id # 0
   /\ IF cur.unh
      THEN /\ (IF "DoubleUnhandled" \in Defects
-              THEN Dead(<<[id |-> cur.id, snd |-> cur.snd, rcv |-> "T"], [id |-> cur.id, snd |-> cur.snd, rcv |-> "T"]>>)
-              ELSE Dead(<<[id |-> cur.id, snd |-> cur.snd, rcv |-> "T"]>>))
+              THEN Dead(<<[id |-> cur.id, snd |-> cur.snd, rcv |-> "T", pos |-> 0], [id |-> cur.id, snd |-> cur.snd, rcv |-> "T", pos |-> 0]>>)
+              ELSE Dead(<<[id |-> cur.id, snd |-> cur.snd, rcv |-> "T", pos |-> 0]>>))
           /\ UNCHANGED handled
      ELSE handled' = handled \cup {cur.id} /\ NoDead
   /\ IF mb # <<>> THEN cur' = Head(mb) /\ mb' = Tail(mb) ELSE cur' = None /\ UNCHANGED mb
@@ -100,9 +107,9 @@ Query ==
   /\ last' = [op |-> "Query", id |-> count, n |-> (IF life = "running" THEN perT ELSE -1), snd |-> "", rcv |-> "", unh |-> FALSE, ok |-> TRUE]
   /\ UNCHANGED core
 
-Next == \/ \E snd \in {"S", "N"}, unh \in BOOLEAN : Tell(snd, unh)
+Next == \/ \E snd \in Kinds, unh \in BOOLEAN : Tell(snd, unh)
         \/ \E rcv \in {"T", "M"}, unh \in BOOLEAN : RemoteTell(rcv, unh)
-        \/ \E n \in 1..2 : Batch(n)
+        \/ \E n \in BatchSizes : Batch(n)
         \/ Finish \/ Stop \/ Query
 
 Spec == Init /\ [][Next]_vars
@@ -114,6 +121,8 @@ Pending == {mb[i].id : i \in 1..Len(mb)} \cup (IF cur.id # 0 THEN {cur.id} ELSE 
 Accounting == /\ accepted = Pending \cup handled \cup DeadIds
               /\ Pending \cap handled = {} /\ Pending \cap DeadIds = {} /\ handled \cap DeadIds = {}
               /\ \A i, j \in 1..Len(dl) : i # j => dl[i].id # dl[j].id
+\* every member of a failed batch is published with ITS sender
+BatchSenders == \A i \in 1..Len(dl) : dl[i].pos > 0 => dl[i].snd = (IF dl[i].pos % 2 = 1 THEN "R" ELSE "R2")
 CountMatches == count = Len(dl) /\ perT = Cardinality({i \in 1..Len(dl) : dl[i].rcv = "T"})
 Bounded == Len(mb) <= Cap
 =============================================================================
